@@ -86,3 +86,53 @@ package selector
 //@   assigns api, keys
 //@   requires api != nil
 //@   ensures @lookup forall j int :: 0 <= j && j < len(keys) && den(keys[j]) == den(queryKey) && (forall m int :: 0 <= m && m < len(keys) && m != j ==> den(keys[m]) != den(queryKey)) ==> den(result) == den(values[j])
+
+// ---- mux.go
+
+// binaryMuxRecursive selects inputs[sum_k selBits[k]*2^k] whenever that index exists (the selector
+// bits are boolean: asserted by BinaryMux, or produced by a binary decomposition in Mux).
+// The four lemma instances are the elementary facts about the little-endian bit sum of selBits with
+// its most significant bit split off.
+//@ contract binaryMuxRecursive
+//@   props C14
+//@   assigns api
+//@   requires api != nil && allBool(selBits) && len(inputs) >= 1 && len(selBits) <= 62
+//@   lemma @empty len(selBits) == 0 ==> bsum(selBits) == 0
+//@   lemma @sub-bool len(selBits) > 0 && allBool(selBits) ==> allBool(selBits[:len(selBits)-1]) && isBool(den(selBits[len(selBits)-1]))
+//@   lemma @msb len(selBits) > 0 ==> bsum(selBits) == bsum(selBits[:len(selBits)-1]) + (den(selBits[len(selBits)-1]) == f1 ? pow2(len(selBits)-1) : 0)
+//@   lemma @bound len(selBits) > 0 && allBool(selBits[:len(selBits)-1]) ==> fits(bsum(selBits[:len(selBits)-1]), len(selBits)-1)
+//@   ensures @select bsum(selBits) < len(inputs) ==> den(result) == den(inputs[bsum(selBits)])
+
+//@ contract BinaryMux
+//@   props C14
+//@   assigns api
+//@   requires api != nil && len(selBits) <= 62
+//@   lemma @all-bool (forall k int :: 0 <= k && k < len(selBits) ==> isBool(den(selBits[k]))) ==> allBool(selBits)
+//@   lemma @bound allBool(selBits) ==> fits(bsum(selBits), len(selBits))
+//@   ensures @bool allBool(selBits)
+//@   ensures @select den(result) == den(inputs[bsum(selBits)])
+//@   loop 1 invariant @bool forall k int :: 0 <= k && k <= rangeindex ==> isBool(den(selBits[k]))
+
+// ---- Mux
+
+// Mux returns inputs[sel]; sel >= len(inputs) is unsatisfiable.
+//@ contract Mux
+//@   props C14
+//@   assigns api
+//@   requires api != nil && len(inputs) >= 1
+//@   ensures @domain ival(den(sel)) < len(inputs)
+//@   ensures @select den(result) == den(inputs[ival(den(sel))])
+
+// muxRecursive: len(inputs) is not a power of two, selBits has the bit length of len(inputs)-1.
+//@ contract muxRecursive
+//@   props C14
+//@   assigns api
+//@   requires api != nil && allBool(selBits)
+//@   requires len(selBits) >= 1 && len(selBits) <= 63
+//@   requires pow2(len(selBits) - 1) < len(inputs) && len(inputs) < pow2(len(selBits))
+//@   lemma @sub-bool allBool(selBits) ==> allBool(selBits[:len(selBits)-1]) && isBool(den(selBits[len(selBits)-1]))
+//@   lemma @msb bsum(selBits) == bsum(selBits[:len(selBits)-1]) + (den(selBits[len(selBits)-1]) == f1 ? pow2(len(selBits)-1) : 0)
+//@   lemma @bound allBool(selBits[:len(selBits)-1]) ==> fits(bsum(selBits[:len(selBits)-1]), len(selBits)-1)
+//@   lemma @prefix-bool forall m int :: 0 <= m && m <= len(selBits) && allBool(selBits) ==> allBool(selBits[:m])
+//@   lemma @prefix forall m int :: 0 <= m && m <= len(selBits) - 1 && allBool(selBits) && bsum(selBits[:len(selBits)-1]) < pow2(m) ==> bsum(selBits[:m]) == bsum(selBits[:len(selBits)-1])
+//@   ensures @select bsum(selBits) < len(inputs) ==> den(result) == den(inputs[bsum(selBits)])
